@@ -1,12 +1,180 @@
 import FatVerif.Model.Util
 import FatVerif.Model.Basic
-/-! pure-probe driver for suite `Names` — STUB, to be replaced (see /verif/ARCH.md). -/
+import FatVerif.Model.Names
+/-!
+pure-probe driver for suite `names` (see /verif/ARCH.md)
+
+```
+names.validate <namehex>                       => 0|10|11
+names.checksum <hex11>                         => n
+names.split    <pathhex>                       => <hex> <hex|none>
+names.gen_new  <namehex>                       => chksum fits lossy baselen <hex11> | PANIC
+names.generate <namehex> <hex11,hex11,…|-> <maxiter> => <hex11> <iters> | none | PANIC
+names.short_eq <hex11> <namehex>               => 0|1      (names: ASCII and U+FFFD only)
+```
+-/
 namespace FatVerif.NamesDriver
+open FatVerif.Util FatVerif.Names
 
-def handle (_fn : String) (_args : List String) : Option String := none
+def textOf (h : String) : Option (List Char) := do
+  let bs ← bytesOfHex h
+  let s ← stringOfUtf8 bs
+  pure s.toList
 
-def oracle (_fn : String) (_args : List String) (_implOut : List String) : Option String := none
+def hexOfText (cs : List Char) : String := hexOfBytes (utf8OfString (String.ofList cs))
 
-def branch (_fn : String) (_args : List String) : String := "-"
+def bad : String := "MODEL-BADARG"
+
+def showGen (g : Gen) : String :=
+  s!"{g.chksum} {showBool g.nameFits} {showBool g.lossyConv} {g.basenameLen} {hexOfBytes g.shortName}"
+
+def runGenerate (name : List Char) (existing : List (List Nat)) (maxIter : Nat) : String :=
+  match newL name with
+  | .error _ => "PANIC"
+  | .ok g =>
+    match generateLoop existing maxIter 0 g with
+    | none => "none"
+    | some (n, i) => s!"{hexOfBytes n} {i}"
+
+/-- names the `short_eq` model covers with the ASCII `upper` although the harness is built with feature
+    `unicode`: on ASCII characters and on U+FFFD `char::to_uppercase` and `to_ascii_uppercase` coincide -/
+def asciiOrFffd (cs : List Char) : Bool := cs.all fun c => c.toNat < 128 || c.toNat == 0xFFFD
+
+def handle (fn : String) (args : List String) : Option String :=
+  match fn, args with
+  | "names.validate", [h] => some <|
+    match textOf h with
+    | none => bad
+    | some cs => match validateLongNameL cs with
+      | .ok _ => "0"
+      | .error e => toString e.code
+  | "names.checksum", [h] => some <|
+    match bytesOfHex h with
+    | none => bad
+    | some bs => toString (lfnChecksum bs)
+  | "names.split", [h] => some <|
+    match textOf h with
+    | none => bad
+    | some cs =>
+      let r := splitPathL cs
+      hexOfText r.1 ++ " " ++ (match r.2 with | none => "none" | some b => hexOfText b)
+  | "names.gen_new", [h] => some <|
+    match textOf h with
+    | none => bad
+    | some cs => match newL cs with
+      | .ok g => showGen g
+      | .error _ => "PANIC"
+  | "names.generate", [h, ex, mi] => some <|
+    match textOf h, bytesListOfHex ex, natOf mi with
+    | some cs, some existing, some maxIter => runGenerate cs existing maxIter
+    | _, _, _ => bad
+  | "names.short_eq", [r, h] => some <|
+    match bytesOfHex r, textOf h with
+    | some raw, some cs =>
+      if asciiOrFffd cs then showBool (eqIgnoreCase upperAscii raw cs) else "MODEL-UNSUPPORTED"
+    | _, _ => bad
+  | _, _ => none
+
+/-- class of a name on which the alias generator panicked -/
+def panicClass (cs : List Char) : String :=
+  match cs with
+  | [] => "empty"
+  | c :: _ => if c.utf8Size > 1 then "multibyte-first-char" else "other"
+
+def oracleGenerate (h : String) (ex : String) (mi : String) (implOut : List String) : Option String :=
+  match bytesListOfHex ex, natOf mi with
+  | some existing, some maxIter =>
+    match implOut with
+    | ["none"] =>
+      if maxIter ≥ existing.length / 9 + 2
+      then some s!"C16 alias-no-termination name={h} population={existing.length} maxiter={maxIter}"
+      else none
+    | [a, _] =>
+      match bytesOfHex a with
+      | none => some s!"C16 alias-illegal unparsable name={h}"
+      | some alias =>
+        if !legalAliasB alias then some s!"C16 alias-illegal name={h} alias={a}"
+        else if existing.contains alias then some s!"C16 alias-not-fresh name={h} alias={a}"
+        else none
+    | _ => none
+  | _, _ => none
+
+def oracle (fn : String) (args : List String) (implOut : List String) : Option String :=
+  match fn, args with
+  | "names.validate", [h] =>
+    match bytesOfHex h, textOf h with
+    | some bs, some cs =>
+      let spec := toString (specValidateCode bs.length cs)
+      if implOut = [spec] then none
+      else some s!"C15 validate-wrong name={h} impl={" ".intercalate implOut} spec={spec}"
+    | _, _ => none
+  | "names.checksum", [h] =>
+    match bytesOfHex h with
+    | some bs =>
+      let spec := toString (specLfnChecksum bs 0)
+      if implOut = [spec] then none else some s!"C16 checksum-wrong sfn={h} impl={" ".intercalate implOut} spec={spec}"
+    | none => none
+  | "names.gen_new", [h] =>
+    if implOut = ["PANIC"] then
+      match textOf h with
+      | some cs => some s!"C15 alias-gen-panic {panicClass cs} name={h}"
+      | none => none
+    else none
+  | "names.generate", [h, ex, mi] =>
+    if implOut = ["PANIC"] then
+      match textOf h with
+      | some cs => some s!"C15 alias-gen-panic {panicClass cs} name={h}"
+      | none => none
+    else oracleGenerate h ex mi implOut
+  | _, _ => none
+
+def validateBranch (cs : List Char) : String :=
+  match validateLongNameL cs with
+  | .ok _ => if cs.all (·.toNat < 128) then "ok-ascii" else "ok-bmp"
+  | .error .nameLen => if cs.isEmpty then "empty" else "too-long"
+  | .error _ =>
+    if cs.any (·.toNat > 0xFFFF) then "bad-astral"
+    else if cs.any (·.toNat < 32) then "bad-control" else "bad-punct"
+
+def genBranch (cs : List Char) : String :=
+  match newL cs with
+  | .error _ => "panic-" ++ panicClass cs
+  | .ok g =>
+    (if g.lossyConv then "lossy" else "lossless") ++ (if g.nameFits then "-fits" else "-nofit") ++
+    (if g.basenameLen = 0 then "-base0" else if g.basenameLen < 2 then "-base1" else if g.basenameLen < 6 then "-base2to5"
+     else "-base6to8")
+
+def generateBranch (cs : List Char) (existing : List (List Nat)) (maxIter : Nat) : String :=
+  match newL cs with
+  | .error _ => "panic-" ++ panicClass cs
+  | .ok g =>
+    match generateLoop existing maxIter 0 g with
+    | none => "none"
+    | some (n, i) =>
+      let pop := if existing.length = 0 then "pop0" else if existing.length < 14 then "pop<14"
+        else if existing.length < 100 then "pop<100" else "pop>=100"
+      let form := if n = g.shortName then "exact"
+        else if byteAt n (longPrefixLen g) = 126 ∧ n.take (longPrefixLen g) = g.shortName.take (longPrefixLen g) then "long~N"
+        else "hash~N"
+      let it := if i = 0 then "it0" else if i = 1 then "it1" else if i < 10 then "it<10" else "it>=10"
+      s!"{form}-{it}-{pop}"
+
+def branch (fn : String) (args : List String) : String :=
+  match fn, args with
+  | "names.validate", [h] => (textOf h).elim "badarg" validateBranch
+  | "names.gen_new", [h] => (textOf h).elim "badarg" genBranch
+  | "names.generate", [h, ex, mi] =>
+    match textOf h, bytesListOfHex ex, natOf mi with
+    | some cs, some existing, some maxIter => generateBranch cs existing maxIter
+    | _, _, _ => "badarg"
+  | "names.split", [h] =>
+    match textOf h with
+    | some cs => if (splitPathL cs).2.isSome then "multi" else "single"
+    | none => "badarg"
+  | "names.short_eq", [r, h] =>
+    match bytesOfHex r, textOf h with
+    | some raw, some cs => if eqIgnoreCase upperAscii raw cs then "eq" else "ne"
+    | _, _ => "badarg"
+  | _, _ => "-"
 
 end FatVerif.NamesDriver
